@@ -55,6 +55,7 @@ func checkC08(p *Prog, r *Report) {
 	ruleC08Pure(p, r, res)
 	ruleC08Unwrap(p, ResolveAnchors(p), r)
 	ruleC08Deref(p, ResolveAnchors(p), r)
+	ruleC08Items(p, ResolveAnchors(p), r)
 	r.Begin("R-C08-MACRO-ANCHORS", "macro body executor found by role", 1)
 	if ma := resolveMacroAnchors(p, a, r); ma != nil {
 		r.Trivial("anchors", "-", "%d macro body executor(s)", len(ma.bodies))
@@ -136,6 +137,7 @@ func ruleC08Sibling(p *Prog, a *Anchors, r *Report, res *ssa.Function) {
 // R-C08-CALL: the reflect Call is dominated by the call protocol checks.
 func ruleC08Call(p *Prog, a *Anchors, r *Report, res *ssa.Function) {
 	r.Begin("R-C08-CALL", "calling a context function: Kind==Func, argument-count test against NumIn (error edge), NumOut ∈ {1,2} (error edge), per-parameter type test (error edge) and validity test all precede the reflect Call; the error result of a (T, error) function is returned", 5)
+	ruleC08CallNil(p, a, r)
 	calls := reflectCallsIn(p, res, "Call")
 	if len(calls) != 1 {
 		r.Unk("resolve:Call", p.Pos(res.Pos()), "expected exactly one reflect Call in the resolver, found %d", len(calls))
